@@ -213,9 +213,13 @@ def _rows_job(job):
             r["r"] = (1 if v else 0) if isinstance(v, bool) else str(v)
         elif op in ("one", "zero"):
             r["r"] = pr(_safe(lambda: getattr(cls, op)()))
-        elif op == "ctor":
+        elif op in ("ctor", "ctorq"):
             r["k"] = o
-            r["r"] = pr(_safe(lambda: cls(o)))
+            if op == "ctorq":           # an element built from another element, and from a bool (an int subtype)
+                r["op"], r["via"] = "ctor", "FQ(FQ(k))"
+                r["r"] = pr(_safe(lambda: cls(cls(o))))
+            else:
+                r["r"] = pr(_safe(lambda: cls(o)))
         elif op == "ctorv":
             r["a"] = o
             r["r"] = pr(_safe(lambda: cls(list(o))))
@@ -284,6 +288,7 @@ def build_tables(tier: str, seed: int, families=("ref", "opt"), log=lambda *a: N
             if d == 1:
                 add("ieq", [(a, k) for a in small for k in range(min(p, 40))])
                 add("ctor", ks)
+                add("ctorq", ks)
             else:
                 add("ctorv", [[rng.randrange(-3 * p, 3 * p) for _ in range(d)] for _ in range(6)])
             add("one", [None])
